@@ -4,7 +4,9 @@
 //! Writes "<case> | <observed>" lines for the extracted model (ocaml/c17/driver.ml).
 //!
 //! Kinds: S serialize into a pre-filled buffer, D type_check, A add_value sequence, X long
-//! sequence (the cap), R from_serializable of a row.  Formats: see ocaml/c17/driver.ml.
+//! sequence (the cap), R from_serializable of a slice row, N from_serializable of a row bound by
+//! name (BTreeMap / HashMap), T TypedRowIterator::new on real rows, C from_closure value counts.
+//! Formats: see ocaml/c17/driver.ml.
 #[path = "../c17_carriers.rs"]
 mod carriers;
 #[path = "../c01_text.rs"]
@@ -830,7 +832,7 @@ fn main() {
     // ---- directed part (does not depend on the seed, except for WHICH quarter of the two-level
     //      matrix the quick tier visits: the quarter rotates with the seed)
     let mut dr = Rng::new(0xC17);
-    let quarter = |i: usize, j: usize| (i.wrapping_mul(7919) + j.wrapping_mul(104729) + a.seed as usize) % 4 == 0;
+    let quarter = |i: usize, j: usize| i.wrapping_mul(7919).wrapping_add(j.wrapping_mul(104729)).wrapping_add(a.seed as usize) % 4 == 0;
     // 1. the serialisation matrix (populated witnesses)
     for (i, e) in ctx.ser.iter().enumerate() {
         for (j, t) in types.iter().enumerate() {
